@@ -303,8 +303,14 @@ def dataset_like(sample_dataset: xarray.Dataset, new_dataset: xarray.Dataset) ->
     _update_no_clobber(sample_dataset.encoding, like_dataset.encoding)
     for key, sample_variable in sample_dataset.variables.items():
         new_variable = like_dataset.variables[key]
-        _update_no_clobber(sample_variable.attrs, new_variable.attrs)
         _update_no_clobber(sample_variable.encoding, new_variable.encoding)
+        # Keys such as _FillValue move from attrs to encoding when xarray decodes a variable.
+        # A variable with the same key in both can not be saved.
+        sample_attrs = {
+            key: value for key, value in sample_variable.attrs.items()
+            if key not in new_variable.encoding
+        }
+        _update_no_clobber(sample_attrs, new_variable.attrs)
 
     # Done!
     return like_dataset
